@@ -74,6 +74,39 @@ func checkC12(c *Check) {
 		})
 	}
 	c.Floor("accumulating framing reads", 1, nread)
+	// 1b. the pipe is opened for reading only: a descriptor that is also a
+	// writer of the FIFO never observes end-of-stream
+	nopen := 0
+	for _, fn := range p.AllRepoFuncs() {
+		if FuncPkgPath(fn) != ModPath+"/ingesters/namedpipe" {
+			continue
+		}
+		allInstrs(fn, func(in ssa.Instruction) {
+			cl, ok := in.(*ssa.Call)
+			if !ok {
+				return
+			}
+			sc := staticCallee(cl.Common())
+			if sc == nil {
+				return
+			}
+			switch sc.String() {
+			case "os.Open":
+				nopen++
+				c.OK("end-of-stream-observable", "os.Open in "+fn.Name(), p.InstrPos(in), "read-only open")
+			case "os.OpenFile":
+				nopen++
+				k, isK := cl.Call.Args[1].(*ssa.Const)
+				if !isK || k.Value == nil {
+					c.Unk("end-of-stream-observable", "os.OpenFile in "+fn.Name(), p.InstrPos(in), "open flags are not a constant")
+					return
+				}
+				const accMode = 0x3 // O_WRONLY|O_RDWR on linux
+				c.Cond(k.Int64()&accMode == 0, "end-of-stream-observable", "os.OpenFile in "+fn.Name(), p.InstrPos(in), fmt.Sprintf("flags %#x: read-only", k.Int64()), fmt.Sprintf("the pipe is opened with flags %#x (write access): the ingester itself counts as a writer of the FIFO, so the kernel never reports end-of-stream when the real writer goes away and the end of the stream is ignored instead of returned as an error", k.Int64()))
+			}
+		})
+	}
+	c.Floor("opens of the pipe", 1, nopen)
 	if len(cbCalls) == 0 {
 		return
 	}
